@@ -282,6 +282,10 @@ def sel_select(rlist, wlist, xlist, timeout=None):
         raise
     if timeout is not None and timeout < 0:
         raise ValueError('timeout must be non-negative')
+    if any(fd - FD_BASE >= 1024 for fd in r + w if fd >= FD_BASE):
+        # FD_SETSIZE: what use_poll=True exists for
+        W.log('select', (tuple(r), timeout), 'ValueError')
+        raise ValueError('filedescriptor out of range in select()')
 
     def ready():
         for fd in r:
@@ -380,6 +384,7 @@ def tc_getattr(fd):
     if not _simfd(fd if not hasattr(fd, 'fileno') else fd.fileno()):
         return _termios.tcgetattr(fd)
     W.sys_enter('tcgetattr')
+    K.touch(fd if not hasattr(fd, 'fileno') else fd.fileno(), 'tcgetattr')
     of = _ttyof(fd)
     a = of.pty.attr
     r = [a[0], a[1], a[2], a[3], a[4], a[5], list(a[6])]
@@ -391,6 +396,7 @@ def tc_setattr(fd, when, attr):
     if not _simfd(fd if not hasattr(fd, 'fileno') else fd.fileno()):
         return _termios.tcsetattr(fd, when, attr)
     W.sys_enter('tcsetattr')
+    K.touch(fd if not hasattr(fd, 'fileno') else fd.fileno(), 'tcsetattr')
     of = _ttyof(fd)
     of.pty.attr = [attr[0], attr[1], attr[2], attr[3], attr[4], attr[5], list(attr[6])]
     if when == _termios.TCSAFLUSH:
